@@ -37,6 +37,9 @@ func runC14(w *World) {
 			n = w.Range(0, 20, "ncaps")
 		default:
 			n = w.Range(0, 40, "ncaps")
+			if w.Chance(1, 8, "hundred") {
+				n = 100
+			}
 		}
 		var l []corebgp.Capability
 		for i := 0; i < n; i++ {
